@@ -56,6 +56,11 @@ type Clause struct {
 	Expr  *Spec
 	Locs  []*Spec
 	Line  int
+	// bystep clauses: the step (a store into Locs[0], or the N-th call of Callee) is an instance of the step
+	// lemma Lemma whenever Expr holds before it
+	Callee string
+	N      int
+	Lemma  string
 }
 
 type Contract struct {
@@ -116,10 +121,12 @@ type ContractFile struct {
 }
 type GhostField struct{ Type, Field, Sort string }
 
-var reClause = regexp.MustCompile(`^(requires|ensures|modifies|decreases|trusted|nilable|hint|assume|preserves|unreachable-returns|opaque|exit|apply|cut)(\[[A-Za-z0-9,@]+\])?\s*(.*)$`)
+var reClause = regexp.MustCompile(`^(requires|ensures|modifies|decreases|trusted|nilable|hint|assume|preserves|unreachable-returns|opaque|exit|apply|cut|rely|guarantee|interference)(\[[A-Za-z0-9,@]+\])?\s*(.*)$`)
 var reLoop = regexp.MustCompile(`^loop\s+(\d+)\s+(invariant|decreases|modifies|hint|apply|assume)(\[[A-Za-z0-9,@]+\])?\s+(.*)$`)
 var reGhostVar = regexp.MustCompile(`^ghost\s+var\s+([A-Za-z_][A-Za-z0-9_]*)\s+(int|bool|\[int\]int|\[int\]bool)\s*=\s*(.*)$`)
-var reAtCall = regexp.MustCompile(`^at\s+call\??\s+([A-Za-z0-9_./()*]+)#(\d+)\s+ghost\s+([A-Za-z_][A-Za-z0-9_.\[\]+\-* ()]*?)\s*:=\s*(.*)$`)
+var reAtCall = regexp.MustCompile(`^at\s+call\??\s+([A-Za-z0-9_./()*]+)#(\d+)\s+ghost(\[[A-Za-z0-9,@]+\])?\s+([A-Za-z_][A-Za-z0-9_.\[\]+\-* ()]*?)\s*:=\s*(.*)$`)
+var reByStepStore = regexp.MustCompile(`^bystep(\[[A-Za-z0-9,@]+\])?\s+store\s+in\s+(.*?)\s+when\s+(.*?)\s+by\s+([A-Za-z0-9_]+)$`)
+var reByStepCall = regexp.MustCompile(`^bystep(\[[A-Za-z0-9,@]+\])?\s+call\s+([A-Za-z0-9_./()*]+)#(\d+)\s+when\s+(.*?)\s+by\s+([A-Za-z0-9_]+)$`)
 var reAtReturn = regexp.MustCompile(`^at\s+return\s+ghost\s+([A-Za-z_][A-Za-z0-9_.\[\]+\-* ()]*?)\s*:=\s*(.*)$`)
 var reAtCallHint = regexp.MustCompile(`^at\s+call\??\s+([A-Za-z0-9_./()*]+)#(\d+)\s+(?:hint|assume|check)(\[[A-Za-z0-9,@]+\])?\s+(.*)$`)
 var rePure = regexp.MustCompile(`^(?:pure|arith)\s+([A-Za-z_][A-Za-z0-9_]*)\s*\(([^)]*)\)\s*:\s*([A-Za-z0-9_\[\]\*\.]+)\s*=\s*(.*)$`)
@@ -262,6 +269,27 @@ func parseContractFile(path string) (*ContractFile, error) {
 				cur.GhostVars = append(cur.GhostVars, GhostVar{m[1], ghostSortName(m[2]), e})
 				continue
 			}
+			if m := reByStepStore.FindStringSubmatch(t); m != nil {
+				locs, err := parseSpecList(m[2])
+				if err != nil {
+					return nil, fail(err)
+				}
+				e, err := parseSpec(m[3])
+				if err != nil {
+					return nil, fail(err)
+				}
+				cur.Clauses = append(cur.Clauses, &Clause{Kind: "bystep", Loop: -1, Props: parseProps(m[1]), Locs: locs, Expr: e, Text: t, Lemma: m[4], Line: l.line})
+				continue
+			}
+			if m := reByStepCall.FindStringSubmatch(t); m != nil {
+				n, _ := strconv.Atoi(m[3])
+				e, err := parseSpec(m[4])
+				if err != nil {
+					return nil, fail(err)
+				}
+				cur.Clauses = append(cur.Clauses, &Clause{Kind: "bystep", Loop: -1, Props: parseProps(m[1]), Expr: e, Text: t, Lemma: m[5], Callee: m[2], N: n, Line: l.line})
+				continue
+			}
 			if m := reAtCallHint.FindStringSubmatch(t); m != nil {
 				n, _ := strconv.Atoi(m[2])
 				e, err := parseSpec(m[4])
@@ -273,15 +301,15 @@ func parseContractFile(path string) (*ContractFile, error) {
 			}
 			if m := reAtCall.FindStringSubmatch(t); m != nil {
 				n, _ := strconv.Atoi(m[2])
-				e, err := parseSpec(m[4])
+				e, err := parseSpec(m[5])
 				if err != nil {
 					return nil, fail(err)
 				}
-				lhs, err := parseSpec(m[3])
+				lhs, err := parseSpec(m[4])
 				if err != nil {
 					return nil, fail(err)
 				}
-				cur.AtCalls = append(cur.AtCalls, AtCall{Callee: m[1], N: n, Var: m[3], LHS: lhs, Expr: e, Line: l.line, Optional: strings.HasPrefix(t, "at call?")})
+				cur.AtCalls = append(cur.AtCalls, AtCall{Callee: m[1], N: n, Var: m[4], LHS: lhs, Expr: e, Line: l.line, Optional: strings.HasPrefix(t, "at call?"), Props: parseProps(m[3])})
 				continue
 			}
 			if m := reAtReturn.FindStringSubmatch(t); m != nil {
@@ -349,7 +377,7 @@ func parseContractFile(path string) (*ContractFile, error) {
 				}
 				cur.UnreachableReturns = n
 				continue
-			case "modifies":
+			case "modifies", "interference":
 				if strings.TrimSpace(m[3]) != "" && strings.TrimSpace(m[3]) != "nothing" {
 					locs, err := parseSpecList(m[3])
 					if err != nil {
